@@ -232,7 +232,20 @@ where
             panic!("invalid state");
         };
 
-        while let Some(mut buffer) = recv_buffer(read_rx)? {
+        loop {
+            let Some(mut buffer) = recv_buffer(read_rx)? else {
+                // At the end of the stream, replace the current block with an empty block so that
+                // its data is not served again.
+                self.buffer.block.set_position(self.position);
+                self.buffer.block.set_size(0);
+
+                let data = self.buffer.block.data_mut();
+                data.set_position(0);
+                data.resize(0);
+
+                break;
+            };
+
             buffer.block.set_position(self.position);
             self.position += buffer.block.size();
 
